@@ -244,6 +244,13 @@ impl Item {
     }
 }
 
+/// The preferred (shortest) head for `major` with argument `n`.
+pub fn preferred_head(major: u8, n: u64) -> Vec<u8> {
+    let mut v = Vec::new();
+    head(major, n, W::min_for(n), &mut v);
+    v
+}
+
 fn head(major: u8, n: u64, w: W, out: &mut Vec<u8>) {
     assert!(w.holds(n), "width {:?} cannot hold {}", w, n);
     let m = major << 5;
@@ -575,4 +582,62 @@ pub fn unhex(s: &str) -> Vec<u8> {
     s.chunks(2)
         .map(|c| u8::from_str_radix(core::str::from_utf8(c).unwrap(), 16).unwrap())
         .collect()
+}
+
+impl Item {
+    /// Compact RFC 8949 diagnostic-style rendering with encoding indicators, for messages.
+    pub fn diag(&self) -> String {
+        fn wi(w: &W) -> &'static str {
+            match w {
+                W::Imm => "",
+                W::W1 => "_0",
+                W::W2 => "_1",
+                W::W4 => "_2",
+                W::W8 => "_3",
+            }
+        }
+        fn pw(n: u64, w: &W) -> &'static str {
+            if *w == W::min_for(n) { "" } else { wi(w) }
+        }
+        fn short(b: &[u8]) -> String {
+            if b.len() > 12 {
+                format!("{}..({}B)", hex(&b[..8]), b.len())
+            } else {
+                hex(b)
+            }
+        }
+        match self {
+            Item::Uint(n, w) => format!("{}{}", n, pw(*n, w)),
+            Item::Nint(n, w) => format!("{}{}", -1 - *n as i128, pw(*n, w)),
+            Item::Bytes(b, StrForm::Def(w)) => format!("h'{}'{}", short(b), pw(b.len() as u64, w)),
+            Item::Text(b, StrForm::Def(w)) => format!("t'{}'{}", short(b), pw(b.len() as u64, w)),
+            Item::Bytes(b, StrForm::Indef(c)) => format!("(_ h'{}' in {:?})", short(b), c.iter().map(|x| x.0).collect::<Vec<_>>()),
+            Item::Text(b, StrForm::Indef(c)) => format!("(_ t'{}' in {:?})", short(b), c.iter().map(|x| x.0).collect::<Vec<_>>()),
+            Item::Array(v, l) => {
+                let inner: Vec<String> = v.iter().take(12).map(|x| x.diag()).collect();
+                let more = if v.len() > 12 { format!(", ..{} items", v.len()) } else { String::new() };
+                match l {
+                    Len::Def(w) => format!("[{}{}]{}", inner.join(", "), more, pw(v.len() as u64, w)),
+                    Len::Indef => format!("[_ {}{}]", inner.join(", "), more),
+                }
+            }
+            Item::Map(v, l) => {
+                let inner: Vec<String> = v.iter().take(12).map(|(k, x)| format!("{}: {}", k.diag(), x.diag())).collect();
+                let more = if v.len() > 12 { format!(", ..{} entries", v.len()) } else { String::new() };
+                match l {
+                    Len::Def(w) => format!("{{{}{}}}{}", inner.join(", "), more, pw(v.len() as u64, w)),
+                    Len::Indef => format!("{{_ {}{}}}", inner.join(", "), more),
+                }
+            }
+            Item::Tag(t, w, i) => format!("{}{}({})", t, pw(*t, w), i.diag()),
+            Item::Simple(20) => "false".into(),
+            Item::Simple(21) => "true".into(),
+            Item::Simple(22) => "null".into(),
+            Item::Simple(23) => "undefined".into(),
+            Item::Simple(s) => format!("simple({})", s),
+            Item::Float(b, FW::F16) => format!("f16:{:04x}", b),
+            Item::Float(b, FW::F32) => format!("f32:{:08x}", b),
+            Item::Float(b, FW::F64) => format!("f64:{:016x}", b),
+        }
+    }
 }
